@@ -493,15 +493,15 @@ C07Fails(ev, V, W) ==
          -> LET inn  == InnerNonRoot(V)
                 must == {n \in inn : BrOf(V, n).len # NIL /\ BrOf(V, n).len <= ev.args.thr}
                 may  == {n \in inn : BrOf(V, n).len = NIL}
-            IN  F_Collapse(V, W, must, may, ~ev.args.tips)
+            IN  F_CollapseR(V, W, must, may, ~ev.args.tips, ev.args.root)
     [] ev.op = "CollapseLowSupport"
          -> LET inn  == InnerNonRoot(V)
                 must == {n \in inn : BrOf(V, n).sup # NIL /\ BrOf(V, n).sup < ev.args.thr}
-            IN  F_Collapse(V, W, must, {}, TRUE)
+            IN  F_CollapseR(V, W, must, {}, TRUE, ev.args.root)
     [] ev.op = "CollapseTopoDepth"
          -> LET inn  == InnerNonRoot(V)
                 must == {n \in inn : TopoDepthOf(V, n) >= ev.args.min /\ TopoDepthOf(V, n) <= ev.args.max}
-            IN  F_Collapse(V, W, must, {}, ~ev.args.tips)
+            IN  F_CollapseR(V, W, must, {}, ~ev.args.tips, ev.args.root)
     [] ev.op = "Resolve" -> F_Resolve(V, W)
     [] OTHER -> {}
 
